@@ -148,6 +148,31 @@ def run(ck):
                                      "the algorithm selection depends on the time unit" % (g, e0, es, f),
                                      {"crystal": nm, "cutoff": cut, "g": g, "f": f, "thermo": {k: np.asarray(v).tolist() for k, v in th.items()},
                                       "L_scaled_over_g": [(x / g).tolist() for x in Lg], "L": [x.tolist() for x in res[f]]}, key="c08-timeunit")
+        # (b'') inequivalent exchange classes separated by nine decades (one class 1e9 x the others): both forced algorithms must
+        # still agree (standard error ~ eps * 1e9) and Lss must stay positive semidefinite
+        if not multi and not polar and len(th["preT2"]) >= 2:
+            for k0 in range(len(th["preT2"])):
+                t = {k: np.array(v, dtype=float) for k, v in th.items()}
+                t["preT2"][k0] = t["preT2"][k0] * 1e9
+                args = d.preene2betafree(1.0, **t)
+                outw = {}
+                for lab, lo in (("standard", 1e300), ("default", 1e8), ("large", 1e-30)):
+                    d.clearcache()
+                    try:
+                        outw[lab] = [np.array(x) for x in d.Lij(*args, large_om2=lo)]
+                    except Exception as e:
+                        ck.violation("Lij(large_om2=%g) raised %r with exchange classes nine decades apart" % (lo, e), {"crystal": nm, "class": k0}, key="c08-raise"); outw[lab] = None
+                if any(v is None for v in outw.values()): continue
+                scale = np.abs(outw["default"][0]).max()
+                ck.case(key=("widespread", nm, k0, [np.asarray(v).round(10).tolist() for v in th.values()]), nontrivial=True, kind="class-spread-1e9")
+                ess = max(np.abs(outw["standard"][1] - outw["large"][1]).max(), np.abs(outw["default"][1] - outw["large"][1]).max()) / scale
+                mn = tcommon.min_eig(outw["default"][1]) / scale
+                docw = {"crystal": nm, "cutoff": cut, "fast_class": k0, "thermo": {k: np.asarray(v).tolist() for k, v in t.items()},
+                        "standard": [x.tolist() for x in outw["standard"]], "large": [x.tolist() for x in outw["large"]], "default": [x.tolist() for x in outw["default"]]}
+                if ess > 1e-14 * 1e9 * smax + 1e-9:
+                    ck.violation("exchange classes nine decades apart: Lss of the standard/default and large-omega2 algorithms differ by %.3g relative" % ess, docw, key="c08-agree-classspread")
+                if mn < -1e-6:
+                    ck.violation("exchange classes nine decades apart: default Lss not positive semidefinite (min eig %.3g relative)" % mn, docw, key="c08-psd-classspread")
         # (c) forced-large algorithm vs the exact torus chain (crystals outside the known failure regimes)
         M = vm.min_torus(d)
         if not multi and d.N * d.N * M ** crys.dim <= (700 if ck.quick else 2600):
